@@ -460,7 +460,7 @@ pub fn run(ctx: &mut LaneCtx) {
     ctx.run_sub(
         SubSpec {
             name: "generated",
-            cases: (480, 20_000),
+            cases: (800, 20_000),
             rule: "generated targets (0..8 extra threads of kinds parked/sleeper/null-sp/exiter with unset/UTF-8/non-UTF-8 names) x fail-point subset x auxv plan x exiter cue x a subset of threads (possibly all, possibly the main thread) held by a foreign tracer so that attaching to them fails; oracle = expected-error model equality + all other streams equal to the fault-free dump of the same target; non-trivial as above; distinct = hash of case",
             strategy: (0u8..32, proptest::collection::vec(thread_strategy(), 0..9), any::<bool>(), prop_oneof![3 => Just(AuxvPlan::Kernel), 1 => Just(AuxvPlan::TrueDirect), 1 => Just(AuxvPlan::BadPhdr), 1 => Just(AuxvPlan::HugePhnum)], prop_oneof![5 => Just(0u16), 3 => any::<u16>().prop_map(|m| m & 0x1fe), 1 => any::<u16>(), 1 => Just(0xffffu16)])
                 .prop_map(|(failmask, threads, cue_exiters, auxv, seized)| fix(Case { failmask, threads, cue_exiters, auxv, seized }))
